@@ -5,7 +5,7 @@ import common
 from common import Outcome, frac_str, classify_exc
 
 KINDS = ['', '_in_', '_not_in_', '_is_none_', '_is_not_none_', '_ne_', '_lt_', '_le_', '_gt_', '_ge_', '_like_', '_not_like_']
-ATTRS = ['prio', 'tag', 'id', 'parent_id', 'estimate', 'spent', 'name', 'x_in_', 'missing']
+ATTRS = ['prio', 'tag', 'id', 'parent_id', 'estimate', 'spent', 'name', 'x_in_', 'missing', 'clone']
 PATS = ['a', '^a', 'b$', 'a.c', '[0-9]', 'zz', '']
 STRS = ['abc', 'a', 'bca', 'a1c', '', 'zz9']
 NUMS = ['0', '1', '2', '3', '5/2', '8']
@@ -40,13 +40,16 @@ def random_case(prop, rng, tier):
             t['dict']['tag'] = rng.choice([None] + [['s', s] for s in STRS])
         if rng.random() < 0.3:
             t['dict']['x_in_'] = ['n', rng.choice(NUMS)]
+        if rng.random() < 0.2:
+            # a user attribute named like a member of the Task class: "lacking the attribute" still means "not set on this task"
+            t['dict']['clone'] = rng.choice([None, ['s', rng.choice(STRS)], ['n', rng.choice(NUMS)]])
         tasks.append(t)
     filters = []
     nf = rng.choice([1, 1, 1, 2, 2, 3]) if rng.random() < 0.9 else 0      # one case in ten: the empty filter combination
     for _ in range(nf):
         a = rng.choice(ATTRS)
         k = rng.choice(KINDS)
-        numeric = a in ('prio', 'id', 'parent_id', 'estimate', 'spent', 'x_in_')
+        numeric = a in ('prio', 'id', 'parent_id', 'estimate', 'spent', 'x_in_') or (a == 'clone' and rng.random() < 0.5)
         if rng.random() < 0.08:
             numeric = not numeric            # type confusion: TypeError paths
         if k in ('_in_', '_not_in_'):
